@@ -319,13 +319,19 @@ func (r *PaginatedResourceRepository[ResourceType, OptionsType]) Paginate(
 			v.PageSize = paginate.QueryDefaultPageSize
 		}
 
-		_, field := r.resourceHandler.Schema().GetFieldByNameOrAlias(v.Column)
+		fieldName, field := r.resourceHandler.Schema().GetFieldByNameOrAlias(v.Column)
 		if field == nil {
 			return nil, NewErrInvalidQuery("invalid property '%s' for pagination", v.Column)
 		}
 
 		if !field.IsPaginated {
 			return nil, newErrNotPaginatedField(v.Column)
+		}
+
+		// a field known under several names (volumes: address / account) has one SQL column,
+		// the one the resource paginates on by default
+		if defaultFieldName, _ := r.resourceHandler.Schema().GetFieldByNameOrAlias(r.defaultPaginationColumn); defaultFieldName == fieldName {
+			v.Column = r.defaultPaginationColumn
 		}
 
 		if field.Type.IsPaginated() {
